@@ -631,3 +631,53 @@ impl ObjectStore for VObjStore {
         })
     }
 }
+
+/// A handle on a `VObjStore` that stamps every operation it issues with `tag` (the log's `actor`), so that the log of
+/// a store shared by two tasks tells whose operation each entry was.
+#[derive(Clone)]
+pub struct Tagged(pub VObjStore, pub &'static str);
+
+impl ObjectStore for Tagged {
+    fn put<'a>(&'a self, key: &'a str, data: &'a [u8]) -> Pin<Box<dyn Future<Output = IoResult<()>> + Send + 'a>> {
+        Box::pin(async move {
+            self.0.set_actor(self.1);
+            self.0.put(key, data).await
+        })
+    }
+    fn get<'a>(&'a self, key: &'a str) -> Pin<Box<dyn Future<Output = IoResult<Vec<u8>>> + Send + 'a>> {
+        Box::pin(async move {
+            self.0.set_actor(self.1);
+            self.0.get(key).await
+        })
+    }
+    fn exists<'a>(&'a self, key: &'a str) -> Pin<Box<dyn Future<Output = IoResult<bool>> + Send + 'a>> {
+        Box::pin(async move {
+            self.0.set_actor(self.1);
+            self.0.exists(key).await
+        })
+    }
+    fn delete<'a>(&'a self, key: &'a str) -> Pin<Box<dyn Future<Output = IoResult<()>> + Send + 'a>> {
+        Box::pin(async move {
+            self.0.set_actor(self.1);
+            self.0.delete(key).await
+        })
+    }
+    fn list<'a>(&'a self, prefix: &'a str, continuation_token: Option<&'a str>) -> Pin<Box<dyn Future<Output = IoResult<ListResult>> + Send + 'a>> {
+        Box::pin(async move {
+            self.0.set_actor(self.1);
+            self.0.list(prefix, continuation_token).await
+        })
+    }
+    fn rename<'a>(&'a self, from: &'a str, to: &'a str) -> Pin<Box<dyn Future<Output = IoResult<()>> + Send + 'a>> {
+        Box::pin(async move {
+            self.0.set_actor(self.1);
+            self.0.rename(from, to).await
+        })
+    }
+    fn head<'a>(&'a self, key: &'a str) -> Pin<Box<dyn Future<Output = IoResult<ObjectMeta>> + Send + 'a>> {
+        Box::pin(async move {
+            self.0.set_actor(self.1);
+            self.0.head(key).await
+        })
+    }
+}
